@@ -897,6 +897,10 @@ def work(job):
     if memcheck:
         stats["memcheck_scenarios"] = 0
     for sd in seeds:
+        if world.too_many_hangs():
+            stats["scenarios_not_run_after_repeated_hangs"] = \
+                stats.get("scenarios_not_run_after_repeated_hangs", 0) + 1
+            continue
         if memcheck:
             stats["memcheck_scenarios"] += 1
         r = common.rng("c02-%d" % sd)
